@@ -5,8 +5,8 @@ namespace I18nVerif.FormatCache
 variable {κ ι : Type} [DecidableEq κ]
 
 /-- cache invariant: every entry holds the formatter made for its key, and no key occurs twice -/
-def Inv (make : κ → ι) (st : State κ ι) : Prop :=
-  (∀ e ∈ st, e.2 = make e.1) ∧ (st.map (·.1)).Nodup
+def Inv (make : κ → Option ι) (st : State κ ι) : Prop :=
+  (∀ e ∈ st, make e.1 = some e.2) ∧ (st.map (·.1)).Nodup
 
 theorem lookup_some_mem {k : κ} {st : State κ ι} {v : ι} (h : lookup k st = some v) : (k, v) ∈ st := by
   induction st with
@@ -36,35 +36,45 @@ theorem lookup_mem_some {k : κ} {st : State κ ι} (h : k ∈ st.map (·.1)) : 
   | none => exact absurd h (lookup_none_not_mem hl)
 
 omit [DecidableEq κ] in
-theorem inv_nil (make : κ → ι) : Inv make ([] : State κ ι) := by simp [Inv]
+theorem inv_nil (make : κ → Option ι) : Inv make ([] : State κ ι) := by simp [Inv]
 
-/-- one step from a state satisfying the invariant: the formatter for the requested key, whatever the state -/
-theorem step_spec (make : κ → ι) (st : State κ ι) (k : κ) (h : Inv make st) :
+/-- one step from a state satisfying the invariant: the outcome is `make k`, whatever the state -/
+theorem step_spec (make : κ → Option ι) (st : State κ ι) (k : κ) (h : Inv make st) :
     (step make st k).2 = make k ∧ Inv make (step make st k).1 ∧
-    (∀ k', k' ∈ st.map (·.1) → k' ∈ (step make st k).1.map (·.1)) ∧ k ∈ (step make st k).1.map (·.1) := by
+    (∀ k', k' ∈ st.map (·.1) → k' ∈ (step make st k).1.map (·.1)) ∧
+    ((make k).isSome → k ∈ (step make st k).1.map (·.1)) := by
   unfold step
   cases hl : lookup k st with
   | some v =>
     have hm := lookup_some_mem hl
-    refine ⟨h.1 _ hm, h, fun _ h' => h', ?_⟩
+    refine ⟨(h.1 _ hm).symm, h, fun _ h' => h', fun _ => ?_⟩
     exact List.mem_map.mpr ⟨(k, v), hm, rfl⟩
   | none =>
-    refine ⟨rfl, ⟨?_, ?_⟩, ?_, ?_⟩
-    · intro e he
-      simp only [List.mem_cons] at he
-      rcases he with rfl | he
-      · rfl
-      · exact h.1 e he
-    · simp only [List.map_cons, List.nodup_cons]
-      exact ⟨lookup_none_not_mem hl, h.2⟩
-    · intro k' hk'; simp [List.mem_cons]; right; simpa using hk'
-    · simp
+    cases hmk : make k with
+    | none => exact ⟨rfl, h, fun _ h' => h', fun hs => by simp at hs⟩
+    | some v =>
+      refine ⟨rfl, ⟨?_, ?_⟩, ?_, ?_⟩
+      · intro e he
+        simp only [List.mem_cons] at he
+        rcases he with rfl | he
+        · exact hmk
+        · exact h.1 e he
+      · simp only [List.map_cons, List.nodup_cons]
+        exact ⟨lookup_none_not_mem hl, h.2⟩
+      · intro k' hk'; simp [List.mem_cons]; right; simpa using hk'
+      · intro _; simp
 
-theorem run_spec (make : κ → ι) (ks : List κ) : ∀ (st : State κ ι), Inv make st →
+theorem run_spec (make : κ → Option ι) (ks : List κ) : ∀ (st : State κ ι), Inv make st →
     (run make st ks).2 = ks.map make ∧ Inv make (run make st ks).1 ∧
-    (∀ k, k ∈ st.map (·.1) ∨ k ∈ ks → k ∈ (run make st ks).1.map (·.1)) := by
+    (∀ k, (k ∈ st.map (·.1) ∨ (k ∈ ks ∧ (make k).isSome)) → k ∈ (run make st ks).1.map (·.1)) := by
   induction ks with
-  | nil => intro st h; simp [run, h]
+  | nil =>
+    intro st h
+    refine ⟨rfl, h, ?_⟩
+    intro k hk
+    rcases hk with hk | hk
+    · exact hk
+    · simp at hk
   | cons k ks ih =>
     intro st h
     obtain ⟨h1, h2, h3, h4⟩ := step_spec make st k h
@@ -73,11 +83,11 @@ theorem run_spec (make : κ → ι) (ks : List κ) : ∀ (st : State κ ι), Inv
     refine ⟨by rw [h1, i1], i2, ?_⟩
     intro k' hk'
     apply i3
-    rcases hk' with hk' | hk'
+    rcases hk' with hk' | ⟨hk', hs⟩
     · exact Or.inl (h3 k' hk')
     · simp only [List.mem_cons] at hk'
       rcases hk' with rfl | hk'
-      · exact Or.inl h4
-      · exact Or.inr hk'
+      · exact Or.inl (h4 hs)
+      · exact Or.inr ⟨hk', hs⟩
 
 end I18nVerif.FormatCache
